@@ -179,6 +179,10 @@ def loss_case(driver, seed, part, i, res, base_times):
                 sim.world.at(t_fault + restore + 3.3, lambda: sim.dev.lose("eof"))
                 sim.world.at(t_fault + restore + 4.9, sim.dev.restore)
         d.connect()
+        if i % 5 == 0:
+            # an application that calls connect() again while the connection is up (or being set up) changes nothing
+            d.connect()
+            res.hit("connect_called_twice")
         tasks = [asyncio.ensure_future(caller(c)) for c in range(n_callers)]
         if with_sequence:
             tasks.append(asyncio.ensure_future(seq_caller()))
